@@ -1,4 +1,5 @@
 CONSTANTS
+  OBUG = "none"
   Thr16 = 65535
   ThrN = 65535
   Thr32 = 2147483647
